@@ -18,7 +18,7 @@ out = ['# Seeded breaking changes', '',
        '| id | breaks | kind | needs, to manifest | quick checks against it | pinned suite with the change |', '|---|---|---|---|---|---|']
 for r in rows:
     out.append('| ' + ' | '.join(str(x).replace('|', '\\|') for x in r) + ' |')
-out += ['', 'The sub-agents worked in three rounds (14, 12 and 12 changes; from the second round on each agent was told which ideas had been used). Checks that initially missed a',
+out += ['', 'The sub-agents worked in four rounds (14, 12, 12 and 9 ideas, 46 kept after confirmation; from the second round on each agent was told which ideas had been used). Checks that initially missed a',
         'seeded change, and what was strengthened (every change is caught now; the "quick checks" column above was recorded at confirmation time):', '',
         '* S08 (kore-exists format string): the C19 notation monitor compared fully random argument tuples, which differ everywhere; it now renders a base tuple and, for every definition-relevant position, a variant that differs only there.',
         '* S09 (InstantiationOptimizer drops stray keys): the composer only instantiated keys that occur in the conclusion; 20% of the explicit instantiations now carry a key that does not occur.',
@@ -28,6 +28,10 @@ out += ['', 'The sub-agents worked in three rounds (14, 12 and 12 changes; from 
         '* S25 (current configuration advanced before a late refusal): the E-trace driver stopped at the first refusal; it now goes on delivering events and requires a refused step to leave claims, proofs and current configuration unchanged.',
         '* S26 (negative polarity slip in SSubst): the mu-positivity probe only crossed the positive arms; it now crosses both polarities of inner metavariable and plug, and leads on (builds a theorem from the mu pattern) even when the reference machine refused it, so that C01 sees it too. R2 instances now use the constrained variables with the allowed polarity.',
         '* S28 (element substitution under a binder of the substituted variable): caught by C05, missed by C01; the stream generator gained a Quantifier probe (plugs that bind / shadow / mention x0 and x1).',
-        '* S29 / S34 (SSubst freshness slips in the toolkit): generalisation probes in the history generator and in the composer (consequents full of pending substitutions, binders and constrained metavariables; same variable numbers for element and set variables).', '']
+        '* S29 / S34 (SSubst freshness slips in the toolkit): generalisation probes in the history generator and in the composer (consequents full of pending substitutions, binders and constrained metavariables; same variable numbers for element and set variables).',
+        '* S40 (s_fresh of an Exists whose variable number equals the set variable): no sound stream depended on a set-freshness judgement; the valid-axiom catalogue gained s_fresh-dependent schemas and the stream generator a constraint-boundary probe (Instantiate with plugs that sit exactly on, and one step beyond, each declared constraint).',
+        '* S42 (symbol table reset between phases): C03 compared only declared sets; the serialiser\'s symbol() seam is now observed across the three files (same name same number, distinct names distinct numbers).',
+        '* S46 (claim recorded before the functional-substitution check): the E-trace workload only used functional substitution values; non-functional heads are now generated (refusal or acceptance both allowed, a refusal must be atomic).',
+        '* revert of D9 slipped out of the C02 quick tier after the generator changes of round four (found by the full sensitivity run): the composer\'s probe now also resolves the pending substitution with a metavariable declared fresh for the variable.', '']
 open(os.path.join(VERIF, 'seeded', 'README.md'), 'w').write('\n'.join(out))
 print('\n'.join(out[:12]))
